@@ -359,6 +359,11 @@ class Inotify:
                                     _move_to_path = _path.replace(move_src_path, inotify_event.src_path)
                                     self._wd_for_path[_move_to_path] = moved_wd
                                     self._path_for_wd[moved_wd] = _move_to_path
+                    elif self.is_recursive and inotify_event.is_directory:
+                        # The directory arrives from outside the watched tree, or it never got
+                        # a watch under its previous name: start watching it now.
+                        with contextlib.suppress(OSError):
+                            self._add_dir_watch(inotify_event.src_path, self._event_mask, recursive=True)
                     src_path = os.path.join(wd_path, name)
                     inotify_event = InotifyEvent(wd, mask, cookie, name, src_path)
 
@@ -427,6 +432,11 @@ class Inotify:
         wd = inotify_add_watch(self._inotify_fd, path, mask)
         if wd == -1:
             Inotify._raise_error()
+        # The kernel hands back the existing descriptor for an inode that is already
+        # being watched (a directory that left the tree and came back): forget its old name.
+        old_path = self._path_for_wd.get(wd)
+        if old_path is not None and old_path != path and self._wd_for_path.get(old_path) == wd:
+            del self._wd_for_path[old_path]
         self._wd_for_path[path] = wd
         self._path_for_wd[wd] = path
         return wd
